@@ -242,7 +242,7 @@ func (b *builder) buildModule(i int) {
 	b.ctx = nil
 	m.noRet = b.chance("noret", 10)
 	m.params = 0
-	if b.chance("modparam", 15) {
+	if b.chance("modparam", 25) {
 		m.params = rapid.IntRange(1, 3).Draw(b.rt, "nparams")
 	}
 	var body []gen.Stmt
@@ -612,7 +612,9 @@ func (b *builder) action(depth int) []gen.Stmt {
 				t := b.pick("t", rm)
 				p, _ := b.path(t, 0)
 				k := "k"
-				if b.byName[t].params > 0 && b.chance("q", 50) {
+				if b.byName[t].params == 3 && b.chance("nq", 50) {
+					k = "nq" // number of values the module's variadic parameter received
+				} else if b.byName[t].params > 0 && b.chance("q", 50) {
 					k = "q"
 				} else if b.chance("name", 30) {
 					k = "name"
